@@ -328,9 +328,85 @@ Definition ft_model_ok (c : ftcase) : bool :=
 Definition ft_spec_ok (c : ftcase) : bool :=
   if (0 <? ft_n c)%nat && (ft_deadline c + 1000000000 <? ft_w c) then (ft_admitted c <=? ft_n c)%nat else true.
 
+(** * Reconfiguration under load: waiters take tickets as fast as they can (window 0) while
+      another goroutine alternates SetMaxEvents(0) / SetMaxEvents(size + k mod 3); then
+      SetMaxEvents(0), a probe Wait, SetMaxEvents(n), SetWindow(w) and k callers that wait at
+      most [deadline].  Observed: did all setter calls return, was the probe admitted, how many
+      of the k callers were admitted, how many stamps are in the ring. *)
+
+Record stcase := ST {
+  st_n0 : nat; st_flips : nat; st_size : nat;
+  st_n : nat; st_w : Z; st_k : nat; st_deadline : Z;
+  st_cfg_returned : bool; st_probe : bool; st_final_returned : bool;
+  st_admitted : nat; st_stamps : nat
+}.
+
+(** one admission, then SetMaxEvents(n), the loop running ahead *)
+Definition cfg_step (s : state) (n : nat) : option state :=
+  match admit_one s (now s) with
+  | Some s1 => match step s1 (SetMaxEvents (now s1) n) with
+               | Some s2 => Some (settle s2 (now s2))
+               | None => None end
+  | None => None
+  end.
+
+Fixpoint flips_run (size k i : nat) (s : state) : option state :=
+  match k with
+  | O => Some s
+  | S k' =>
+      match cfg_step s 0 with
+      | Some s1 => match cfg_step s1 (size + Nat.modulo i 3) with
+                   | Some s2 => flips_run size k' (S i) s2
+                   | None => None end
+      | None => None
+      end
+  end.
+
+(** (probe admitted, admissions among the k callers): one representative interleaving — by
+    Race.loop_never_dies / live_loop_offers every interleaving keeps the loop alive *)
+Definition stress_model (c : stcase) : option (bool * nat) :=
+  let t0 := Z.max (st_w c) 0 + 1 in
+  (* the first 200 flips: the interleaving is a representative one anyway, and every flip
+     returns the model to the same kind of state *)
+  match flips_run (st_size c) (Nat.min (st_flips c) 200) 0 (settle (init (st_n0 c) 0 t0) t0) with
+  | Some s1 =>
+      match cfg_step s1 0 with
+      | Some s2 =>
+          match admit_one s2 (now s2) with
+          | Some s3 =>
+              let s4 := try_step s3 (SetMaxEvents (now s3) (st_n c)) in
+              let s5 := try_step s4 (SetWindow (now s4) (st_w c)) in
+              let s6 := settle s5 (now s5) in
+              Some (true, burst_admitted (st_k c) s6 (now s6) (st_deadline c))
+          | None => Some (false, O)
+          end
+      | None => None
+      end
+  | None => None
+  end.
+
+Definition st_model_ok (c : stcase) : bool :=
+  match stress_model c with
+  | Some (pr, a) =>
+      st_cfg_returned c && st_final_returned c && Bool.eqb pr (st_probe c) &&
+      (a =? st_admitted c)%nat && (st_stamps c =? (if (st_n c =? 0)%nat then 0 else st_admitted c))%nat
+  | None => false
+  end.
+
+(** the property: the limiter stays usable after the limit has been changed at run time (the
+    setters return, a zero window does not make anybody wait), and the limit in force holds *)
+Definition st_spec_ok (c : stcase) : bool :=
+  st_cfg_returned c && st_probe c && st_final_returned c &&
+  (if (0 <? st_n c)%nat && (st_deadline c + 1000000000 <? st_w c) then (st_admitted c <=? st_n c)%nat else true).
+
+(** the same stress under Go's race detector (thorough tier, a separate process): number of
+    data races reported on the limiter's fields, number of rounds in which the loop died *)
+Record rdcase := RD { rd_races : nat; rd_died : nat }.
+Definition rd_ok (c : rdcase) : bool := (rd_races c =? 0)%nat && (rd_died c =? 0)%nat.
+
 (** * Wire *)
 
-Inductive anycase := AHistory (c : tcase) | AFirst (c : ftcase).
+Inductive anycase := AHistory (c : tcase) | AFirst (c : ftcase) | AStress (c : stcase) | ARace (c : rdcase).
 
 Definition get_zlist : dec (list Z) := get_list get_z.
 Definition get_op : dec op :=
@@ -341,14 +417,25 @@ Definition get_tcase : dec tcase :=
   (n <- get_nat ;; w <- get_z ;; t <- get_z ;; os <- get_list get_op ;; ret (Case n w t os))%Z.
 Definition get_ftcase : dec ftcase :=
   (n <- get_nat ;; w <- get_z ;; k <- get_nat ;; d <- get_z ;; a <- get_nat ;; st <- get_nat ;; ret (FT n w k d a st))%Z.
+Definition get_stcase : dec stcase :=
+  (n0 <- get_nat ;; fz <- get_z ;; let f := Z.to_nat (Z.min fz 1000) in
+   sz <- get_nat ;; n <- get_nat ;; w <- get_z ;; k <- get_nat ;; d <- get_z ;;
+   cr <- get_bool ;; pr <- get_bool ;; fr <- get_bool ;; a <- get_nat ;; st <- get_nat ;;
+   ret (ST n0 f sz n w k d cr pr fr a st))%Z.
+Definition get_rdcase : dec rdcase := (r <- get_nat ;; d <- get_nat ;; ret (RD r d))%Z.
 Definition get_case : dec anycase :=
   (kind <- get_z ;;
-   if kind =? 0 then (c <- get_tcase ;; ret (AHistory c)) else (c <- get_ftcase ;; ret (AFirst c)))%Z.
+   if kind =? 0 then (c <- get_tcase ;; ret (AHistory c))
+   else if kind =? 1 then (c <- get_ftcase ;; ret (AFirst c))
+   else if kind =? 2 then (c <- get_stcase ;; ret (AStress c))
+   else (c <- get_rdcase ;; ret (ARace c)))%Z.
 
 Definition check_line (l : list Z) : Z :=
   match decode get_case l with
   | Some (AHistory c) => code (model_ok c) (spec_ok c)
   | Some (AFirst c) => code (ft_model_ok c) (ft_spec_ok c)
+  | Some (AStress c) => code (st_model_ok c) (st_spec_ok c)
+  | Some (ARace c) => code (rd_ok c) (rd_ok c)
   | None => code_decode_error
   end.
 
@@ -358,5 +445,9 @@ Definition explain_line (l : list Z) : list Z :=
   match decode get_case l with
   | Some (AHistory c) => [first_bad (settle (init (n0 c) (w0 c) (t_create c)) (t_create c)) (ops c) 0]
   | Some (AFirst c) => [match first_throttle_model c with Some a => Z.of_nat a | None => -1 end]
+  | Some (AStress c) => match stress_model c with
+                        | Some (pr, a) => [if pr then 1 else 0; Z.of_nat a]
+                        | None => [-1] end
+  | Some (ARace c) => [Z.of_nat (rd_races c); Z.of_nat (rd_died c)]
   | None => []
   end.
